@@ -43,6 +43,8 @@ def vkey(v):
     if k == "agg":
         kind = v[1]
         name = v[2] if v[2] else (kind if isinstance(kind, str) else kind[0])
+        if v[2] and not v[3]:
+            return name
         return "%s(%s)" % (name, ",".join(vkey(x) for x in v[3]))
     if k == "ref":
         return "&" + place_key(v[1])
@@ -173,13 +175,13 @@ class Explorer:
             if k == "atom":
                 return val
             return ("atom", "*" + vkey(val))
-        if isinstance(e, list) and e[0] == "f":
+        if isinstance(e, (list, tuple)) and e[0] == "f":
             idx = e[1]
             if k == "agg" and idx < len(val[3]):
                 return val[3][idx]
             fname = e[4] if e[4] is not None else str(idx)
             return ("atom", "%s.%s" % (vkey(val), fname))
-        if isinstance(e, list) and e[0] == "d":
+        if isinstance(e, (list, tuple)) and e[0] == "d":
             if k == "agg":
                 return val
             return ("atom", "%s as %s" % (vkey(val), e[1]))
@@ -210,7 +212,7 @@ class Explorer:
         # partial write into a local aggregate
         basekey = place_key((loc, []))
         basev = st.env.get(basekey)
-        if basev is not None and basev[0] == "agg" and len(proj) == 1 and isinstance(proj[0], list) and proj[0][0] == "f":
+        if basev is not None and basev[0] == "agg" and len(proj) == 1 and isinstance(proj[0], (list, tuple)) and proj[0][0] == "f":
             idx = proj[0][1]
             fields = list(basev[3])
             if idx < len(fields):
@@ -230,10 +232,10 @@ class Explorer:
                 elif cur[0] == "ref":
                     cur = ("atom", place_key(cur[1]))
                 continue
-            if isinstance(e, list) and e[0] == "f":
+            if isinstance(e, (list, tuple)) and e[0] == "f":
                 fname = e[4] if e[4] is not None else str(e[1])
                 cur = ("atom", "%s.%s" % (vkey(cur), fname))
-            elif isinstance(e, list) and e[0] == "d":
+            elif isinstance(e, (list, tuple)) and e[0] == "d":
                 cur = ("atom", "%s as %s" % (vkey(cur), e[1]))
             else:
                 cur = ("atom", "%s[]" % vkey(cur))
@@ -403,7 +405,7 @@ class Explorer:
         r.end_bb = bb
         r.env = st.env
         if end == "ret":
-            r.ret = st.env.get("_0", ("atom", "_0"))
+            r.ret = self.resolve_deep(st, st.env.get("_0", ("atom", "_0")))
         self.results.append(r)
 
     def resolve(self, st, v):
@@ -432,6 +434,13 @@ class Explorer:
                 if r[0] == "k":
                     return r
         return v
+
+    def resolve_deep(self, st, v, depth=0):
+        if depth > 6:
+            return v
+        if v[0] == "agg":
+            return ("agg", v[1], v[2], tuple(self.resolve_deep(st, x, depth + 1) for x in v[3]))
+        return self.resolve(st, v)
 
     def step(self, st, bb, stack):
         fn = self.fn
@@ -512,6 +521,11 @@ class Explorer:
                             break
                     bb = nxt
                     continue
+                # switch on !x: decide x with the edges swapped
+                flips = 0
+                while v[0] == "not":
+                    v = v[1]
+                    flips += 1
                 key = vkey(v)
                 is_bool = t[4] == "bool"
                 mapping = None
@@ -535,13 +549,18 @@ class Explorer:
                         dv = not bool(taken_vals[0])
                     elif mapping is not None:
                         rest = [(iv, n) for iv, n in mapping.items() if iv not in taken_vals]
-                        if len(rest) == 1:
+                        if not rest:
+                            dv = None   # every variant has its own edge: the otherwise edge is dead
+                        elif len(rest) == 1:
                             dv = ("variant", rest[0][1], rest[0][0])
                         else:
                             dv = ("other", tuple(sorted(n for _, n in rest)))
                     else:
                         dv = ("other", tuple(taken_vals))
-                    branches.append((dv, other))
+                    if dv is not None:
+                        branches.append((dv, other))
+                if flips % 2 == 1 and is_bool:
+                    branches = [((not dv) if isinstance(dv, bool) else dv, tg) for dv, tg in branches]
                 for i, (dv, tg) in enumerate(branches):
                     s2 = st.fork() if i < len(branches) - 1 else st
                     s2.decisions.append((key, dv))
@@ -586,3 +605,54 @@ def variant_name(dv):
     if isinstance(dv, tuple) and dv and dv[0] == "variant":
         return dv[1]
     return dv
+
+
+# ---------------------------------------------------------------------------------------------
+# decision-table comparison
+
+def check_table(paths, atom_of, spec, outcome_of, domains):
+    """Compare the extracted decision table with a specification.
+
+    atom_of(key, value) -> (atom, value) | None   semantic atom for a decision (None = don't care)
+    spec(assign)        -> expected outcome for a *total* assignment of the atoms in `domains`
+    outcome_of(path)    -> observed outcome, or None to ignore the path
+    domains             -> {atom: [values]}
+    Returns dict(deviations=[(assign, expected, got, path, unknown_decisions)], cells=n, uncovered=[assign..])"""
+    import itertools
+    atoms = sorted(domains)
+    covered = set()
+    deviations = []
+    cells = 0
+    for path in paths:
+        got = outcome_of(path)
+        if got is None:
+            continue
+        known = {}
+        unknown = []
+        contradictory = False
+        for key, val in path.decisions:
+            m = atom_of(key, val)
+            if m is None:
+                unknown.append((key, variant_name(val)))
+                continue
+            a, v = m
+            if a in known and known[a] != v:
+                contradictory = True
+            known[a] = v
+        if contradictory:
+            continue
+        free = [a for a in atoms if a not in known]
+        for combo in itertools.product(*[domains[a] for a in free]):
+            assign = dict(known)
+            assign.update(dict(zip(free, combo)))
+            row = tuple(assign[a] for a in atoms)
+            covered.add(row)
+            cells += 1
+            exp = spec(assign)
+            if exp != got:
+                deviations.append((assign, exp, got, path, unknown))
+    uncovered = []
+    for combo in itertools.product(*[domains[a] for a in atoms]):
+        if combo not in covered:
+            uncovered.append(dict(zip(atoms, combo)))
+    return {"deviations": deviations, "cells": cells, "uncovered": uncovered}
